@@ -98,6 +98,10 @@ func (c JSONMapCodec) Read(data []byte, ptr unsafe.Pointer, wt plenccore.WireTyp
 	if n == 0 {
 		return 0, nil
 	}
+	// Every entry takes at least one byte (its length)
+	if count > uint64(len(data)-n) {
+		return 0, fmt.Errorf("map size %d exceeds data length", count)
+	}
 	offset := n
 
 	m := *(*map[string]any)(ptr)
@@ -112,6 +116,9 @@ func (c JSONMapCodec) Read(data []byte, ptr unsafe.Pointer, wt plenccore.WireTyp
 			return 0, fmt.Errorf("bad length in map")
 		}
 		offset += n
+		if l > uint64(len(data)-offset) {
+			return 0, fmt.Errorf("length %d exceeds data length", l)
+		}
 		var key string
 		var val any
 
@@ -179,6 +186,10 @@ func (c JSONArrayCodec) Read(data []byte, ptr unsafe.Pointer, wt plenccore.WireT
 	if n < 0 || (n == 0 && len(data) != 0) {
 		return 0, fmt.Errorf("bad count in array")
 	}
+	// Every entry takes at least one byte (its length)
+	if count > uint64(len(data)-n) {
+		return 0, fmt.Errorf("array size %d exceeds data length", count)
+	}
 	offset := n
 
 	a := *(*[]any)(ptr)
@@ -193,6 +204,9 @@ func (c JSONArrayCodec) Read(data []byte, ptr unsafe.Pointer, wt plenccore.WireT
 			return 0, fmt.Errorf("bad length in map")
 		}
 		offset += n
+		if l > uint64(len(data)-offset) {
+			return 0, fmt.Errorf("length %d exceeds data length", l)
+		}
 
 		n, err := readJSONKV(data[offset:offset+int(l)], nil, &a[i])
 		if err != nil {
@@ -320,6 +334,9 @@ func readJSONKV(data []byte, key *string, val *any) (n int, err error) {
 				return 0, fmt.Errorf("bad length on string field")
 			}
 			offset += n
+			if l > uint64(len(data)-offset) {
+				return 0, fmt.Errorf("length %d exceeds data length", l)
+			}
 
 			n, err := StringCodec{}.Read(data[offset:offset+int(l)], unsafe.Pointer(key), wt)
 			if err != nil {
@@ -341,6 +358,9 @@ func readJSONKV(data []byte, key *string, val *any) (n int, err error) {
 					return 0, fmt.Errorf("bad length on string field")
 				}
 				offset += n
+				if l > uint64(len(data)-offset) {
+					return 0, fmt.Errorf("length %d exceeds data length", l)
+				}
 				var v string
 				n, err := StringCodec{}.Read(data[offset:offset+int(l)], unsafe.Pointer(&v), wt)
 				if err != nil {
@@ -400,6 +420,9 @@ func readJSONKV(data []byte, key *string, val *any) (n int, err error) {
 					return 0, fmt.Errorf("bad length on JSON number field")
 				}
 				offset += n
+				if l > uint64(len(data)-offset) {
+					return 0, fmt.Errorf("length %d exceeds data length", l)
+				}
 				var v json.Number
 				n, err := StringCodec{}.Read(data[offset:offset+int(l)], unsafe.Pointer(&v), wt)
 				if err != nil {
